@@ -510,8 +510,8 @@ pub fn property() -> Property {
             Box::new(Sweep { name: "c18.same_bytes", run: run_bundled, replay: replay_bundled }),
             Box::new(Sweep { name: "c18.installed", run: run_installed, replay: replay_installed }),
             Box::new(Sweep { name: "c18.slim_fat_static", run: run_slim_fat, replay: replay_slim_fat }),
-            Box::new(Prop { name: "c18.names", quick: 60_000, thorough: 2_000_000, strategy: strat_case_variant, test: test_case_variant }),
-            Box::new(Prop { name: "c18.posix_print", quick: 200_000, thorough: 6_000_000, strategy: strat_posix_print, test: test_posix_print }),
+            Box::new(Prop { name: "c18.names", quick: 120_000, thorough: 2_000_000, strategy: strat_case_variant, test: test_case_variant }),
+            Box::new(Prop { name: "c18.posix_print", quick: 600_000, thorough: 6_000_000, strategy: strat_posix_print, test: test_posix_print }),
             Box::new(Sweep { name: "c18.cross_build", run: run_cross_build, replay: replay_cross }),
             Box::new(Sweep { name: "c18.cleanup", run: run_cleanup, replay: replay_cross }),
         ],
